@@ -323,6 +323,33 @@ impl<'a> RunCtx<'a> {
     }
 
     fn loc_of_abs(&mut self, abs: &str) -> Loc {
+        // the kernel's view of the path when its parent exists (symbolic links resolved before any ".."), the lexical one otherwise
+        let resolved = if abs.contains("/../") || abs.contains("/./") {
+            // resolve the longest existing prefix really; what follows it must then be free of ".."
+            let comps: Vec<&str> = abs.split('/').filter(|c| !c.is_empty()).collect();
+            let mut out = None;
+            for cut in (1..=comps.len()).rev() {
+                let prefix = format!("/{}", comps[..cut].join("/"));
+                if let Ok(real) = std::fs::canonicalize(&prefix) {
+                    let rest = &comps[cut..];
+                    if rest.iter().all(|c| *c != ".." && *c != ".") {
+                        let mut r = real.to_string_lossy().to_string();
+                        for c in rest {
+                            r.push('/');
+                            r.push_str(c);
+                        }
+                        out = Some(r);
+                    }
+                    break;
+                }
+            }
+            out
+        } else {
+            None
+        };
+        let really = resolved.is_some();
+        let abs_owned = resolved.unwrap_or_else(|| abs.to_string());
+        let abs: &str = &abs_owned;
         let norm = lexical_normalize(abs);
         let top = self.world.top.clone();
         if norm == top {
@@ -339,7 +366,7 @@ impl<'a> RunCtx<'a> {
                 .collect::<Vec<_>>()
                 .join("/");
             let n = self.canon_name(&n);
-            let lex = abs.contains("/../") || abs.ends_with("/..") || abs.ends_with("/.") || abs.ends_with('/') || abs.contains("//") || abs.contains("/./");
+            let lex = !really && (abs.contains("/../") || abs.ends_with("/..") || abs.ends_with("/.") || abs.ends_with('/') || abs.contains("//") || abs.contains("/./"));
             return Loc { d, n, abs: norm, under: true, lex };
         }
         // Is the world top below this path (create_dir_all walking up)?
@@ -865,8 +892,14 @@ fn snapshot(ctx: &mut RunCtx) -> Value {
                     };
                     inos.insert(
                         iid,
-                        json!({"mode": md.mode() & 0o7777, "at": [md.atime(), md.atime_nsec()], "mt": [md.mtime(), md.mtime_nsec()],
-                               "nlink": md.nlink(), "c": content}),
+                        // (a symbolic link's atime moves whenever any path is resolved through it -- by the tracer too: not reported)
+                        if md.file_type().is_symlink() {
+                            json!({"mode": md.mode() & 0o7777, "at": [md.mtime(), md.mtime_nsec()], "mt": [md.mtime(), md.mtime_nsec()],
+                                   "nlink": md.nlink(), "c": content})
+                        } else {
+                            json!({"mode": md.mode() & 0o7777, "at": [md.atime(), md.atime_nsec()], "mt": [md.mtime(), md.mtime_nsec()],
+                                   "nlink": md.nlink(), "c": content})
+                        },
                     );
                 }
             }
